@@ -280,3 +280,24 @@ def headerIntegrity (H : Bytes → Bytes) (e : Exchange) : Option Bytes :=
   | .ok hdr => some ([115, 104, 97, 50, 53, 54, 45] ++ Base64.encode false true (H hdr))   -- "sha256-"
   | .error _ => none
 end WebPkg.Sxg
+
+namespace WebPkg.Sxg
+open WebPkg.Http
+
+def hContentEncoding : Bytes := [67, 111, 110, 116, 101, 110, 116, 45, 69, 110, 99, 111, 100, 105, 110, 103]   -- "Content-Encoding"
+
+/-- `Exchange.MiEncodePayload(recordSize)` (recordSize ≥ 1); `none` = the digest header is already present -/
+def miEncodePayload (H : Bytes → Bytes) (e : Exchange) (rs : Nat) : Option Exchange :=
+  let enc := e.version.mice
+  if get e.respHeaders enc.digestHeaderName ≠ [] then none
+  else
+    let (stream, digest) := Mice.encode H enc e.payload rs
+    some { e with payload := stream,
+                  respHeaders := add (add e.respHeaders hContentEncoding enc.name) enc.digestHeaderName digest }
+
+/-- `Exchange.AddSignatureHeader(s)` given the signature bytes the signing algorithm returned for the message -/
+def addSignatureHeader (e : Exchange) (sig validityUrl certUrl certSha256 : Bytes) (date expires : Int) : Option Exchange :=
+  match signatureHeaderValue e.version sig validityUrl certUrl certSha256 date expires with
+  | some h => some { e with sigHeader := h }
+  | none => none
+end WebPkg.Sxg
